@@ -225,7 +225,9 @@ chk("C05", "proof",
     "order check means what it says. That every token of every document satisfies the oracle is NOT proved: the extracted oracle (mirrored in "
     "Python and compared on every token) is run over every positioned token of enumerated document spaces, among them multi-line inline "
     "elements (wrapped link/image destinations incl. non-ASCII, escaped and angle-bracket forms, multi-line code spans, raw HTML, emphasis, hard "
-    "breaks) in paragraphs, block quotes and list items. calc_deltas is tied to ParserHelper.calculate_deltas on every string over {a, LF} to length 7/10.",
+    "breaks) in paragraphs, block quotes and list items. calc_deltas is tied to ParserHelper.calculate_deltas on every string over {a, LF} to length 7/10. "
+    "(3) the tab kernel (Model/Tabs.v): the loop of TabHelper.detabify_string computes the character-wise expansion to four-column tab stops for every text and starting column, "
+    "the result has no tab and the length calculate_length reports, and expansion composes along the line; tied to detabify_string / calculate_length on every string with a tab over {a, b, space, tab} to length 5/7 from columns 0-5.",
     "Trusted: Coq kernel + vm_compute, extraction + driver.ml, the position abstraction harness/posabs.py (expected opening text per token kind). "
     "Leaf-block positions are also compared with the spec model CM's (Spec/RuleSpec.v leaf_positions) on the C03 spaces.",
     "Certified position oracle + proved delta arithmetic; extraction; enumeration of positioned tokens",
@@ -272,7 +274,11 @@ chk("C03", "other",
     "CommonMark 0.31.2 examples inside F (all agree) and against the vendored markdown-it-py. That PyMarkdown refines CM is NOT proved: rendered "
     "HTML (up to newlines next to tags) is compared on every document of <= 3 lines over a 23-template leaf vocabulary and a 16-template container "
     "vocabulary, all 4-line container documents, an extended 2-line space, delimiter runs to 6 symbols, emphasis in blocks and numeric references; on a disagreement markdown-it-py arbitrates. About 3 100 failing "
-    "inputs of the pinned tree are listed as known findings. Outside F (links, images, HTML, named entities, backslash escapes, link reference definitions, tabs) nothing is claimed. The fuel of the block phase is proved adequate (cm_fuel_adequate).",
+    "inputs of the pinned tree are listed as known findings. The fuel of the block phase is proved adequate (cm_fuel_adequate). "
+    "Two kernels of the link machinery are modelled as the code is written and proved: Model/LinkDest.v (__encode_link_destination: the loop computes the character-wise normalisation, "
+    "the result is attribute-safe ASCII for all Unicode input, existing percent escapes stay wherever they stand) and Model/LinkLabel.v (normalize_link_label is a one-pass normal form, idempotent, "
+    "insensitive to ASCII case and to the kind and amount of white space; add_link_definition / look_up_link: the first definition with a matching label wins) - tied by calling the real functions on every short string over "
+    "12-character alphabets and on random definition scripts (vm_compute), and by link / image / definition documents. A third kernel, Model/ThematicBreak.v, proves that is_thematic_break answers exactly as the sentence of CommonMark 4.1 for every indentation (tabs by their width) and rest of the line, tied on every line of <= 6 characters over {-, *, _, space, tab, a} and on those lines as documents. A fourth, Model/AtxOpen.v, does the same for is_atx_heading and CommonMark 4.2 (lines of <= 7 characters over {#, space, tab, a}). Outside F and these kernels (the rest of link and image parsing, HTML, named entities, backslash escapes, tabs) nothing is claimed.",
     "Trusted: Coq kernel, extraction + driver.ml, the spec model as a specification (validated, not verified), markdown-it-py (vendored) as arbiter, norm_html.",
     "Gallina spec model of CommonMark blocks (validated on spec examples) + refinement by HTML comparison on enumerated documents (category 'other')",
     "DESIGN.md section 4 C03")
